@@ -46,6 +46,21 @@ CLAIMS = {
    "C11_nothrow / C11_never_terminate: the non-throwing PBKDF2 only returns false, nothing terminates; C11_pinned_refuted keeps finding F2 machine-checked. Decoders (total, never throw) are C13-C15. "
    "Correspondence: ~11k forked calls over the cross product of per-parameter classes incl. selectors -1/3/7/255/INT_MIN/INT_MAX, L = SIZE_MAX-30..SIZE_MAX, iteration and dk_len limits, clock failures; observed verdict incl. terminate / crash / 'false but output written'.",
    note="Acceptance at limits that cannot be executed (dk_len = (2^32-1)*hLen, message length SIZE_MAX-block) is covered by the theorem and by the reject side of the boundary only.", ref="DESIGN.md 7/C11"),
+ "C13": dict(text="Theorems C13_encode, C13_alphabet, C13_language, C13_langb, C13_value, C13_roundtrip, C13_decoded_ok, C13_encode_length: the model of base64_encode equals the bit-level RFC 4648 encoding for every byte string, alphabet and pad flag; "
+   "the model of base64_decode (reverse table built by the code's assignments with -1/-2 markers and URL aliases, the quartet loop with its pad2/pad3 arms and 'must be the last quartet' tests, unpadded tails) returns Some iff the filtered text is in the documented language "
+   "(alphabet characters, '=' only as the final one or two characters of a complete last quartet, length multiple of 4 when padding is required and not 1 mod 4 otherwise; lenient mode skips space/CR/LF/TAB and takes '+' '/' as aliases under the URL alphabet) and then yields the RFC 4648 bytes; "
+   "decode(encode d) = d in strict and lenient mode. Correspondence: 3-4 encoder forms; decoder into reused vector / secure_buffer objects (left empty on failure) and a fresh vector: mutated valid encodings, all pad-run lengths, whitespace at every position, alias characters, high-bit bytes, exhaustive strings over a 12-symbol alphabet.",
+   note="", ref="DESIGN.md 7/C13"),
+ "C14": dict(text="Theorems C14_encode, C14_alphabet, C14_language, C14_langb_iff, C14_value, C14_roundtrip, C14_decoded_ok: the model of base32_encode equals the bit-level RFC 4648 section 6 encoding (upper case, '=' to a multiple of 8) for every byte string; "
+   "the model of base32_decode (table built by the code's assignments with -1/-2 markers, the has_pad test on raw characters, the five-way '=' cascade, staged unpadded tails, the shift/mask byte expressions) returns Some iff the whitespace-filtered text is in the documented language "
+   "(A-Z2-7, '=' only as a run of 1,3,4,6 closing a complete last group, length never 1,3,6 mod 8, multiple of 8 when padding is required; lenient mode adds a-z and skips space/CR/LF/TAB) and then yields the RFC 4648 bytes; decode(encode d) = d in every mode compatible with the padding choice. "
+   "Finite facts by exhaustive sweeps (256, 65536, 32^3) lifted by lemmas; group structure by induction 5 bytes / 8 characters at a time. Correspondence: 3 encoder forms; decoder into reused vector / secure_buffer objects (left empty on failure) and a fresh vector, on valid encodings, all pad-run lengths in last and inner groups, padded group + unpadded tail, case, whitespace, high-bit bytes, exhaustive small strings.",
+   note="", ref="DESIGN.md 7/C14"),
+ "C16": dict(text="Theorems C16_refines_vector (for EVERY history of constructions, adoptions, rvalue-string hand-overs, copy/move assignment, copy construction, self assignment, resize, clear, assign, element writes on two buffer variables, every growth policy: "
+   "the buffers hold exactly what plain byte vectors would hold), C16_invariant + C16_releases_clean (slack [size,capacity) stays fresh-or-zero and every block returned to the allocator during the history and at destruction holds only fresh or zero cells, given that adopted vectors have clean slack), "
+   "C16_rvalue_string (the caller's string is all-zero and empty), C16_pinned_refuted (finding F3) and C16_dirty_adoption_refuted (finding F9). The heap model has cells Fresh | Val b, blocks as long as the capacity, release events. "
+   "Correspondence / observation: histories on real secure_buffer<uint8_t,false/true> objects with operator new/delete interposed (new blocks poisoned, every block scanned at delete), contents compared after every step, caller strings inspected.",
+   note="PARTIAL for the configuration quantifier: that the zero stores survive the optimiser and which secure_zero back-end is compiled in is observed (quick: -O2 with explicit_bzero; thorough: -O0/-O2/-O3 x HAVE_EXPLICIT_BZERO x HMAC_CPP_ENABLE_MLOCK), not proved. locked_ / page locking is not modelled. Known finding F9 (adoption of a vector with dirty slack) is reported as KNOWN-FINDING.", ref="DESIGN.md 7/C16"),
  "C15": dict(text="Theorems C15_encode, C15_alphabet, C15_decode, C15_roundtrip, C15_decoded_ok (+ C15_spec_numerals, C15_fuel_unreachable): the models of base36_encode (repeated long division of the byte vector by 36, leading-zero rule, "
    "the n+1 zeros convention) and base36_decode (per-character classification inside the multiply-accumulate loop, carry propagation, front insertion, leading-zero stripping) equal the documented contract - one '0' per leading zero byte followed by the base-36 numeral, "
    "decoder accepting exactly ASCII letters and digits case-insensitively - for every byte string / character string, and decode(encode d) = d; loop fuel is proved sufficient (exhaustion marker unreachable). "
